@@ -409,6 +409,8 @@ def run(ctx):
     ctx.run_rule('C07.3a', 'T10', 'exit status derives from the error count of the emitted vector', r_exit_status, prog)
     ctx.run_rule('C07.3b', 'T3', 'every generator result is folded into the diagnostics; wait loop has no early exit', r_generator_results_folded, prog)
     ctx.run_rule('C07.4a', 'T2', 'compilation phases run only through apply/apply_unsafe on the no-errors edge', gating.r_phase_gating, prog)
+    from props import c18 as _c18
+    ctx.run_rule('C07.3c', 'T2', 'a generator that exits non-zero, is killed or writes to stderr is a failure whatever it printed (it becomes an error diagnostic, hence a non-zero exit status)', _c18.r_only_decoded_reply_trusted, prog)
     ctx.run_rule('C07.4e', 'T2', 'the entry points compile every input unless reading the inputs recorded an error', r_every_input_compiled, prog)
     ctx.run_rule('C07.4b', 'T1', 'has_errors() inspects kind, not level', r_has_errors_reads_kind, prog)
     ctx.run_rule('C07.4c', 'T1', 'level Error is carried exactly by Error kinds (exit status and gating agree)', levels.r_level_error_only_for_error_kind, prog)
